@@ -214,7 +214,7 @@ fn gs(all: bool) -> Vec<G> {
 
 pub const EXTREMES8: [u64; 8] = [0, 0x80, 0xffff, 0xffff_fff0, 1 << 32, 1 << 61, 1 << 63, u64::MAX];
 pub const EXTREMES: [u64; 16] = [0, 1, 2, 0x7f, 0x80, 0xff, 0xffff, 1 << 31, 0xffff_fff0, 0xffff_ffff, 1 << 32, 1 << 61, (1 << 63) - 1, 1 << 63, u64::MAX - 1, u64::MAX];
-const PAIR_VALUES: [u64; 5] = [0, 0xff, 0xffff_ffff, 1 << 63, u64::MAX];
+const PAIR_VALUES: [u64; 5] = [0, 1 << 63, u64::MAX, 0xff, 0xffff_ffff];
 
 /// Bounds per (tier, flavour): the opt-level-0 flavour is ~6x slower, so its quick
 /// tier enumerates smaller (still exhaustive, still stated) spaces.
@@ -305,7 +305,7 @@ fn add_seed_subs(subs: &mut Vec<Sub>, sz: Sz) {
 
     // --- structure-aware extreme values: one field at a time
     {
-        let g_set: Vec<G> = gs(sz.level == 2).into_iter().take(sz.pick(2, 4, 8)).collect();
+        let g_set: Vec<G> = gs(sz.level == 2).into_iter().take(sz.pick(1, 4, 8)).collect();
         let ng = g_set.len() as u64;
         let nx = sz.pick(8usize, 16, 16);
         // field counts per (seed, g)
@@ -348,7 +348,8 @@ fn add_seed_subs(subs: &mut Vec<Sub>, sz: Sz) {
         let dist = sz.pick(1u64, 2, 8);
         let mut offs: Vec<(usize, usize, u64, u64)> = vec![];
         let mut total = 0u64;
-        let per = dist * (PAIR_VALUES.len() * PAIR_VALUES.len()) as u64;
+        let npv = sz.pick(3usize, 5, 5);
+        let per = dist * (npv * npv) as u64;
         for (si, s) in sd.iter().enumerate() {
             for (gi, g) in g_set.iter().enumerate().take(sz.pick(1, 1, 4)) {
                 let (_, n) = mcx::enc::with_mutation(None, None, || (s.gen)(*g));
@@ -358,12 +359,12 @@ fn add_seed_subs(subs: &mut Vec<Sub>, sz: Sz) {
         }
         let g_set2 = g_set.clone();
         subs.push(
-            Sub::new(&sz.tag("field-extremes-2"), total, &format!("pairs of numeric fields at distance <= {}, both overridden, values from {{0,0xff,2^32-1,2^63,2^64-1}}^2, {} config(s) per seed", dist, sz.pick(1, 1, 4)), move |ctx, i| {
+            Sub::new(&sz.tag("field-extremes-2"), total, &format!("pairs of numeric fields at distance <= {}, both overridden, values from the first {} of {{0,2^63,2^64-1,0xff,2^32-1}} squared, {} config(s) per seed", dist, npv, sz.pick(1, 1, 4)), move |ctx, i| {
                 let pos = offs.partition_point(|o| o.2 <= i) - 1;
                 let (si, gi, start, n) = offs[pos];
                 let mut m = Mix(i - start);
-                let v2 = *m.pick(&PAIR_VALUES);
-                let v1 = *m.pick(&PAIR_VALUES);
+                let v2 = *m.pick(&PAIR_VALUES[..npv]);
+                let v1 = *m.pick(&PAIR_VALUES[..npv]);
                 let d = m.take(dist) + 1;
                 let k1 = m.0;
                 let k2 = k1 + d;
@@ -419,7 +420,7 @@ fn add_seed_subs(subs: &mut Vec<Sub>, sz: Sz) {
     {
         let g_set = gs(false);
         let g_use = sz.pick(1usize, 1, 4);
-        let cap = sz.pick(300u64, 600, 6000);
+        let cap = sz.pick(150u64, 600, 6000);
         let mut offs: Vec<(usize, usize, u64, u64)> = vec![];
         let mut total = 0u64;
         let mut capped = 0u64;
